@@ -468,12 +468,15 @@ def main(pid, tier, seed, replay):
         "trusted_base": TRUSTED, "theorems": pinfo["theorems"], "proof_problems": problems,
         "coqchk": pinfo.get("coqchk", "not run in the quick tier"),
         "evaluations": len(recs), "distinct_nontrivial": distinct,
-        "rule": "one evaluation = one label sequence (start/connect/send/leave/stop) against a real TCP or "
+        "rule": "one evaluation = one label sequence (start/connect/connectbad/open/hello/send/sendwait/leave/abort/stop/closepool, "
+                "restarts also while the previous run still drains) against a real TCP or "
                 "Unix server with raw and CLI clients; non-trivial = contains a connect and a stop; distinct = "
                 "distinct (transport, labels, client kinds)",
         "traces_validated_against_impl": len([r for r in recs if not r.get("error")]),
         "labels_executed": sum(r.get("checks", 0) for r in recs), "label_histogram": dict(hist),
         "failing_scenarios": len(failing), "harness_errors": len(errors),
+        "scenarios_with_overlapping_runs": len([r for r in recs if any("overlap=1" in ln for ln in r.get("lines") or [])]),
+        "not_judged_differences_after_unix_overlap": len([r for r in recs if r.get("observations")]),
         "samples": [r.get("lines") for r in recs[:2]] + [r.get("lines") for r in recs[-1:]],
     }
     core.write_evidence(pid, tier, seed, cov, ASSUMPTIONS, time.time() - t0,
